@@ -116,11 +116,14 @@ pub struct Knobs {
     pub big_stacks: bool,
     /// end of run: cancel everything still running and join root sessions
     pub settle: bool,
+    /// first session id / platform id issued in this run (multi-digit ids); 0 or 1 = the platform's default
+    #[serde(default)]
+    pub id_base: u32,
 }
 
 impl Default for Knobs {
     fn default() -> Self {
-        Knobs { snapshots: true, big_stacks: false, settle: true }
+        Knobs { snapshots: true, big_stacks: false, settle: true, id_base: 0 }
     }
 }
 
@@ -283,6 +286,9 @@ fn drain_timers(max: usize) {
 pub fn run_scenario(sc: Arc<Scenario>, out: Arc<Mutex<DriverOut>>) {
     driver::init();
     rufsm::fsm::verif_reset_counters();
+    if sc.knobs.id_base > 1 {
+        rufsm::fsm::verif_set_id_bases(sc.knobs.id_base, sc.knobs.id_base * 7 + 3);
+    }
     if sc.kind == "C18-iofault" {
         crate::props::c18::driver(&sc, &out);
         return;
